@@ -403,3 +403,66 @@ def guard_chain(pm, node, stop):
     return [x for grp in chain for x in grp]
 
 
+
+
+def deref_access_temps(func_node):
+    """Normal form for rules that read array accesses: a deep copy of the function in which every local bound ONCE to a pure access expression
+    (`t = A[i, K]`, `row = A[i]`, `n = obj.attr`) is replaced, in its later uses, by that expression — provided neither the array nor anything the
+    index is built from is stored to between the definition and the use.  `left = nodes[i, LEFT]; aabbs[left]` reads as `aabbs[nodes[i, LEFT]]`."""
+    import copy
+    fn = copy.deepcopy(func_node)
+    params = {a.arg for a in fn.args.args + fn.args.kwonlyargs + fn.args.posonlyargs}
+    stores = {}
+    for n in ast.walk(fn):
+        if isinstance(n, ast.Name) and isinstance(n.ctx, (ast.Store, ast.Del)):
+            stores.setdefault(n.id, []).append(n.lineno)
+        elif isinstance(n, (ast.Subscript, ast.Attribute)) and isinstance(n.ctx, (ast.Store, ast.Del)):
+            b = n
+            while isinstance(b, (ast.Subscript, ast.Attribute)):
+                b = b.value
+            if isinstance(b, ast.Name):
+                stores.setdefault(b.id + "[]", []).append(n.lineno)
+        elif isinstance(n, ast.AugAssign):
+            b = n.target
+            while isinstance(b, (ast.Subscript, ast.Attribute)):
+                b = b.value
+            if isinstance(b, ast.Name):
+                stores.setdefault(b.id if isinstance(n.target, ast.Name) else b.id + "[]", []).append(n.lineno)
+
+    def pure_access(e):
+        if isinstance(e, ast.Subscript):
+            return pure_access(e.value) and all(isinstance(x, (ast.Name, ast.Constant, ast.Tuple, ast.Attribute, ast.Load, ast.BinOp, ast.Add, ast.Sub, ast.Mult, ast.UnaryOp, ast.USub, ast.Subscript))
+                                                for x in ast.walk(e.slice))
+        if isinstance(e, ast.Attribute):
+            return pure_access(e.value)
+        return isinstance(e, ast.Name)
+    defs = {}
+    for st in ast.walk(fn):
+        if isinstance(st, ast.Assign) and len(st.targets) == 1 and isinstance(st.targets[0], ast.Name) and isinstance(st.value, (ast.Subscript, ast.Attribute)) \
+                and pure_access(st.value) and st.targets[0].id not in params and len(stores.get(st.targets[0].id, [])) == 1:
+            defs[st.targets[0].id] = st
+
+    def safe(st, use_line):
+        names = {x.id for x in ast.walk(st.value) if isinstance(x, ast.Name)}
+        for nm in names:
+            if any(st.lineno < ln < use_line for ln in stores.get(nm, [])):
+                return False          # a store on the use's own line is the statement that reads the value first (x = f(x))
+            if any(st.lineno < ln < use_line for ln in stores.get(nm + "[]", [])):
+                return False
+        return True
+
+    # all or nothing per temporary: a snapshot that is still used after the cell it came from was overwritten keeps its name everywhere
+    for nm in list(defs):
+        uses = [n for n in ast.walk(fn) if isinstance(n, ast.Name) and n.id == nm and isinstance(n.ctx, ast.Load)]
+        if any(n.lineno <= defs[nm].lineno or not safe(defs[nm], n.lineno) for n in uses):
+            del defs[nm]
+
+    class R(ast.NodeTransformer):
+        def visit_Name(self, n):
+            if isinstance(n.ctx, ast.Load) and n.id in defs and n.lineno > defs[n.id].lineno:
+                return ast.copy_location(copy.deepcopy(defs[n.id].value), n)
+            return n
+    for _ in range(3):
+        R().visit(fn)
+    ast.fix_missing_locations(fn)
+    return fn
